@@ -253,7 +253,79 @@ def d_relock(rnd, idx):
                      cleanup=rnd.choice([3, BIG]), yieldp=rnd.choice([0, 300]))
 
 
-DIRECTED = [d_purge_held, d_stall, d_stall, d_waiters, d_spurious, d_indep, d_relock]
+def _timeline(points):
+    """[(absolute virtual instant, step)] -> steps with the sleeps in between (the goroutine starts at 0 and, apart
+    from waiting for a lock, spends no virtual time in its steps)"""
+    steps, cur = [], 0
+    for t, st in points:
+        assert t >= cur, points
+        if t > cur:
+            steps.append("S%d" % (t - cur))
+            cur = t
+        steps.append(st)
+    return steps
+
+
+def d_aged_relock(rnd, idx):
+    """An entry OLDER than the staleness timeout (counted from its creation) is re-locked and held, for a short
+    time, across a periodic clean-up; the next Lock arrives right after that clean-up. Every use of an entry
+    refreshes its lastAccess, so the held entry is not stale and the late-comer has to wait; if age were counted
+    from creation (or from anything but the last use) the clean-up would delete the held entry and the late-comer
+    would be admitted next to the holder.
+
+    Exact virtual timing: clean-up ticks at F, 2F, ...; timeout S with F < S < 2F, not a multiple of F; the entry
+    is created at t0 just after a tick; T is the first tick with T - t0 > S; the re-lock happens at r with
+    t0 + S < r < T (no tick in between, so the idle entry is still there: it was last used at most S before every
+    earlier tick); the holder unlocks at T + d. Every hold is shorter than S, as the proviso demands."""
+    while True:
+        sc = _aged_relock_once(rnd, idx)
+        if sc is not None:
+            return sc
+
+
+def _aged_relock_once(rnd, idx):
+    F = rnd.choice([100, 100, 250, 1000])
+    S = F + rnd.randint(F // 4, (3 * F) // 5)                # F < S < 2F, S mod F in [F/4, 3F/5]
+    k = rnd.choice([1, 2, 3, 7])
+    m = rnd.randint(1, 3)
+    t0 = m * F + rnd.randint(1, 3)                            # right after the m-th tick
+    h1 = rnd.randint(0, 3)
+    T = ((t0 + S) // F + 1) * F                               # first tick strictly after t0 + S
+    assert T - (t0 + S) >= 3, (F, S, t0, T)
+    r = rnd.randint(t0 + S + 1, T - 1)
+    nw = rnd.randint(1, 4)
+    d = rnd.randint(nw + 2, max(nw + 3, F // 5))              # the holder leaves at T + d
+    a = [(t0, "L%d" % k), (t0 + h1, "U%d" % k)]
+    busy = rnd.random() < 0.4
+    if busy:
+        # the key stays in use in between (short sections, possibly across earlier ticks: the entry is young then)
+        t = t0 + h1
+        while True:
+            t += rnd.randint(F // 5, F // 2)
+            h = rnd.randint(0, 4)
+            if t + h >= min(r, t0 + S) - 1:
+                break
+            a += [(t, "L%d" % k), (t + h, "U%d" % k)]
+            t += h
+    a += [(r, "L%d" % k), (T + d, "U%d" % k)]
+    progs = [_timeline(a)]
+    for i in range(nw):
+        arrive = T + rnd.randint(1, d - 1)                    # just after the tick, while the key is held
+        progs.append(_timeline([(arrive, "L%d" % k)]) + ["S%d" % rnd.randint(1, 3), "U%d" % k])
+    if rnd.random() < 0.5:
+        # an unrelated key in use at the same time
+        k2 = k + 10
+        progs.append(_timeline([(rnd.randint(1, T), "L%d" % k2)]) + ["S%d" % rnd.randint(1, 9), "U%d" % k2])
+    if rnd.random() < 0.3:
+        # a later round on the same key: it works normally afterwards
+        progs.append(_timeline([(T + F + rnd.randint(1, F - 1), "L%d" % k)]) + ["S2", "U%d" % k])
+    if _bounds(progs, 0, [])[1] >= S:
+        return None                                           # the (pessimistic) bound of the holds must stay below S
+    return _assemble("dar%05d" % idx, "aged-relock", progs, rnd, procs=rnd.choice([1, 1, 2]), maxsize=BIGSIZE, cleanup=F, stale=S,
+                     yieldp=rnd.choice([0, 0, 200]))
+
+
+DIRECTED = [d_purge_held, d_stall, d_stall, d_waiters, d_spurious, d_indep, d_relock, d_aged_relock]
 
 
 def gen_start(rnd, idx, tier):
@@ -280,9 +352,9 @@ def gen_start(rnd, idx, tier):
 def scenarios(seed, tier, prop):
     rnd = random.Random(seed * 1000003 + 13)
     if tier == "quick":
-        n_dir, n_rnd, n_start = 280, 600, 80
+        n_dir, n_rnd, n_start = 320, 600, 80
     else:
-        n_dir, n_rnd, n_start = 6000, 24000, 2000
+        n_dir, n_rnd, n_start = 6400, 24000, 2000
     out = []
     for i in range(n_dir):
         out.append(DIRECTED[i % len(DIRECTED)](rnd, i))
@@ -810,7 +882,8 @@ RULE = ("scenarios are generated from VERIF_SEED: random programs (G goroutines 
         "sleeps, yields, explicit purges, spurious Unlocks of free keys; table limit 1..3 or large; clean-up period 5..61 ns or none; "
         "staleness timeout above every hold, in 40% of the cases small enough for idle entries to go stale mid-run; manager stalls "
         "injected through the trace hook; GOMAXPROCS 1, 2 or 4), directed families (purge while held, manager stall with arrivals served "
-        "back to back, many waiters, spurious unlock, lock on a free key under contention elsewhere, re-lock after purge) and concurrent "
+        "back to back, many waiters, spurious unlock, lock on a free key under contention elsewhere, re-lock after purge, re-lock of an "
+        "entry older than the staleness timeout held across a clean-up tick) and concurrent "
         "sessions.Start calls on one due id. Each is executed on the real package under the virtual clock; the Lean checkers "
         "Mx.Exec.checkTrace/checkProviso/checkExclusion (proved complete for the transition system the theorems are about) replay the "
         "log. non-trivial = distinct script in whose run at least one Lock found its key taken (an acquire with locks > 0)")
